@@ -29,7 +29,9 @@ RULES["C13"] = (
     "encoding.py: every boolean array of shapes up to (2,3,2) (all 4096) and int-valued arrays x {Dense,Sparse,RunLength,"
     "BinaryRunLength} x every read API; lazy views (flip any axes, transpose any perm, reshape, flat) composed to depth 2 "
     "enumerated and depth 3 sampled (enumerated in thorough) against np.flip/np.transpose/np.reshape; long-run 1-D encodings "
-    "with narrow count dtypes. VoxelGrid: Hypothesis matrices of every class x index sets inside/outside; binvox export/load "
+    "with narrow count dtypes. Value arrays are boolean, non-negative integer, SIGNED integer and float (negative entries), including "
+    "every array over {-1,0,1} of 4 cells and arrays whose non-zero entries sum to zero, for Dense/Sparse/RunLength (run-length: "
+    "integers only, as documented) and their lazy views. VoxelGrid: Hypothesis matrices of every class x index sets inside/outside; binvox export/load "
     "against an independent header+RLE reader/writer. Non-trivial: the represented array holds at least two distinct values "
     "and a run (C order) of length >= 2."
 )
@@ -177,7 +179,7 @@ def b_rl(case, ctx):
         # long: a narrow input array whose total length exceeds its dtype, or a run that has to be split
         lc = "long" if (in_narrow or longest > min(mx, mx2)) else "plain"
     runcls = "none" if n == 0 else ("<max" if longest < mx else "=max" if longest == mx else ("k*max" if longest % mx == 0 else ">max"))
-    ctx.note(nontrivial=_nontrivial(seq) or (len(set(seq)) >= 2 and k >= 2), cls=[f"rl:{dtn}:run{runcls}", f"rl:form={form}"])
+    ctx.note(nontrivial=_nontrivial(seq) or (len(set(seq)) >= 2 and k >= 2), cls=[f"rl:{dtn}:run{runcls}", f"rl:form={form}"] + (["rl:signed_values"] if any(v < 0 for v in seq) else []))
 
     iv = case.get("iv")
     kc = f"form={form}" + (f",idx={iv}" if iv else "")
@@ -461,6 +463,20 @@ def _seqs(max_bool, max_int):
             yield list(s), False
 
 
+def _rl_signed():
+    """Sequences over {-1, 0, 1} (signed values need a signed count dtype: values and counts share one array)."""
+    for n in range(1, 5):
+        for s in itertools.product((-1, 0, 1), repeat=n):
+            if -1 not in s:
+                continue
+            for dtn in ("int8", "int64"):
+                yield from _rl_cases(list(s), False, 1, dtn, [_other_dt(dtn)], ("list", "nc"), GATHER_IV_FEW, SORTED_IV_FEW)
+    for s in ([-1], [-1, 1], [0, -1], [1, -1, -1]):
+        for k in (127, 128, 256):
+            for dtn in ("int8", "int64"):
+                yield from _rl_cases(list(s), False, k, dtn, ["int8", "int64"], (), GATHER_IV_FEW, SORTED_IV_FEW)
+
+
 def _other_dt(dtn):
     return "int64" if dtn != "int64" else "uint8"
 
@@ -510,6 +526,7 @@ def s_rl_inflated(ctx):
 
 def s_rl_u16(ctx):
     ctx.enumerate("C13.rl", _rl_u16(), label="runlength_all_fns_uint16_boundary_k{65535,65536}")
+    ctx.enumerate("C13.rl", _rl_signed(), label="runlength_rle_fns_signed_values{-1,0,1}_len<=4_int8_int64")
 
 
 # ------------------------------------------------------------------------------------------ C13.enc
@@ -536,7 +553,9 @@ def _build_base(case, A):
     if kind == "sparse":
         return lib(sig, enc.SparseEncoding.from_dense, A.copy())
     flat = A.reshape(-1)
-    vdt = bool if A.dtype == bool else np.int64
+    vdt = bool if A.dtype == bool else np.int64  # run-length data is documented as "(n,) int": no float values
+    if A.dtype.kind == "i" and (A < 0).any() and edt.kind == "u":
+        edt = np.dtype("int8" if edt.itemsize == 1 else "int64")  # values and counts share one array: signed values need a signed dtype
     mx = int(np.iinfo(edt).max)
     if kind == "rle":
         if how == "from_dense":
@@ -605,7 +624,7 @@ def _eval_api(api, e, A, case, label):
         check(int(L(lambda: e.ndims)) == nd, pre + "|ndims", f"{e.ndims} want {nd}")
     elif api == "sum":
         s = L(lambda: e.sum)
-        check(int(s) == int(A.sum()), pre + "|value", f"{s} want {A.sum()}")
+        check(float(s) == float(A.sum()), pre + "|value", f"{s} want {A.sum()}")  # values are small integers or multiples of 0.5: exact
     elif api == "is_empty":
         s = L(lambda: e.is_empty)
         check(bool(s) == (not A.any()), pre + "|value", f"{s} want {not A.any()}")
@@ -707,7 +726,9 @@ def _eval_api(api, e, A, case, label):
 
 
 def _array_of(case):
-    vals = np.array(case["vals"], dtype=np.int64)
+    """bool / int64 (signed values allowed) / float64 (case["vdt"] == "float") array represented by the case."""
+    isfloat = case.get("vdt") == "float"
+    vals = np.array(case["vals"], dtype=np.float64 if isfloat else np.int64)
     k = int(case.get("k", 1))
     if k != 1:
         vals = np.repeat(vals, k)
@@ -727,7 +748,9 @@ def b_enc(case, ctx):
     mx = int(np.iinfo(np.dtype(case.get("edt", "int64"))).max)
     ctx.note(
         nontrivial=_nontrivial(flat),
-        cls=[f"enc:{kind}:depth{len(chain)}", f"enc:run{'<max' if longest < mx else '=max' if longest == mx else '>max'}"] + [f"enc:view:{op[0]}" for op in chain],
+        cls=[f"enc:{kind}:depth{len(chain)}", f"enc:run{'<max' if longest < mx else '=max' if longest == mx else '>max'}"] + [f"enc:view:{op[0]}" for op in chain]
+        + (["enc:vals=float"] if A0.dtype.kind == "f" else ["enc:vals=signed"] if A0.dtype.kind == "i" and (A0 < 0).any() else [])
+        + ([f"enc:cancel:{kind}"] if A0.any() and A0.sum() == 0 else []),
     )
 
     def run(depth):
@@ -777,6 +800,33 @@ def _enc_base_cases():
                         i += 1
                         yield {"shape": list(shape), "vals": vals, "bool": False, "kind": kind, "edt": DTYPES[i % 4], "how": ("from_dense", "ref")[(i // 4) % 2],
                                "odt": DTYPES[(i // 8) % 4], "api": api, "aux": aux, "chain": []}
+
+
+SIGNED_SHAPES = [(1, 2, 2), (4,), (2, 2)]
+
+
+def _enc_signed_cases():
+    """EVERY array over {-1, 0, 1} of 4 cells (81, 18 of them non-zero with sum 0) as int64 and the same values halved as
+    float64, plus a few larger cancelling ones; Dense / Sparse / RunLength (int only), every read API."""
+    i = 0
+    arrays = [(shape, list(v)) for shape in SIGNED_SHAPES for v in itertools.product((-1, 0, 1), repeat=4)]
+    arrays += [((2, 3, 2), [0, -1, 1, 0, 2, -2, 0, 0, 3, -3, 0, 0]), ((2, 3, 2), [-1, 0, 0, 0, 0, 0, 0, 0, 0, 0, 0, 1]), ((2, 3, 2), [0, 0, -5, -5, 0, 0, 0, 0, 0, 0, 0, 0]),
+               ((6,), [0, -1, -1, 2, 0, 0]), ((6,), [-2, 0, 0, 0, 1, 1]), ((2, 3), [0, 0, 0, -1, 1, 0])]
+    for shape, vals in arrays:
+        for vdt in ("int", "float"):
+            for kind in ("dense", "sparse", "rle"):
+                if vdt == "float" and kind == "rle":
+                    continue
+                for api in APIS:
+                    if api == "brld" or (api == "rld" and vdt == "float"):
+                        continue
+                    i += 1
+                    edt = ("int8", "int64")[i % 2]
+                    c = {"shape": list(shape), "vals": vals if vdt == "int" else [0.5 * v for v in vals], "bool": False, "kind": kind, "edt": edt,
+                         "how": ("from_dense", "ref")[(i // 2) % 2], "odt": ("int64", "uint8", "int8")[(i // 4) % 3], "api": api, "aux": i % 20, "chain": []}
+                    if vdt == "float":
+                        c["vdt"] = "float"
+                    yield c
 
 
 def _reshapes(shape):
@@ -838,8 +888,9 @@ def _chains(shape, depth, extra_first=True):
 
 VIEW_ARRAYS = {
     (2, 3, 2): [([1, 0, 0, 1, 1, 0, 0, 0, 1, 0, 1, 1], True), ([0, 0, 0, 0, 0, 1, 0, 0, 0, 0, 0, 0], True), ([0] * 12, True), ([0, 2, 3, 4, 5, 6, 7, 0, 9, 10, 11, 12], False)],
-    (1, 2, 3): [([0, 1, 1, 0, 0, 1], True), ([1, 2, 0, 4, 5, 6], False)],
+    (1, 2, 3): [([0, 1, 1, 0, 0, 1], True), ([1, 2, 0, 4, 5, 6], False), ([0, -1, -1, 2, 0, 0], False)],
 }
+VIEW_ARRAYS[(2, 3, 2)].append(([0, -1, 1, 0, 2, -2, 0, 0, 3, -3, 0, 0], False))  # signed, non-zero, sum 0
 
 
 def _enc_view_cases(depths, shapes):
@@ -894,18 +945,42 @@ def _enc_long_cases(max_bool, ks):
                     yield {"shape": [len(s) * k], "vals": s, "k": k, "bool": False, "kind": "rle", "edt": edt, "how": "ref", "odt": DTYPES[i % 4], "api": api, "aux": i % 20, "chain": []}
 
 
+def _enc_long_signed_cases(ks):
+    i = 0
+    for s in ([-1, 1], [1, -1, 0], [0, -2, 2], [-1, -1, 2]):
+        for k in ks:
+            for edt in ("int8", "int64"):
+                for how in ("ref", "from_dense"):
+                    for chain in ([], [["flip", [0]]], [["reshape", [len(s), k]]]):
+                        for api in APIS:
+                            if api == "brld" or (api == "mask" and chain):
+                                continue
+                            i += 1
+                            yield {"shape": [len(s) * k], "vals": s, "k": k, "bool": False, "kind": "rle", "edt": edt, "how": how, "odt": DTYPES[i % 4], "api": api, "aux": i % 20, "chain": chain}
+
+
 @st.composite
 def enc_case(draw, min_depth=0, max_depth=3):
     shape = draw(st.sampled_from([(2, 3, 2), (1, 2, 3), (2, 2, 2), (3, 2, 1), (2, 1, 1), (1, 1, 1), (3, 4), (2, 2), (6,), (2, 3, 4)]))
     size = int(np.prod(shape))
-    isbool = draw(st.booleans())
-    kind = draw(st.sampled_from(KINDS if isbool else KINDS[:3]))
+    vtype = draw(st.sampled_from(["bool", "bool", "uint", "signed", "float"]))
+    isbool = vtype == "bool"
+    kind = draw(st.sampled_from(KINDS if isbool else KINDS[:2] if vtype == "float" else KINDS[:3]))
     if kind == "sparse" and len(shape) != 3:
         kind = "dense"
     if isbool:
         vals = draw(st.lists(st.integers(0, 1), min_size=size, max_size=size))
-    else:
+    elif vtype == "uint":
         vals = draw(st.lists(st.sampled_from([0, 0, 1, 2, 5, 7]), min_size=size, max_size=size))
+    else:
+        # signed values: with probability 1/2 made to cancel (non-zero entries, sum 0) by construction
+        vals = draw(st.lists(st.sampled_from([0, 0, 0, 1, -1, 2, -2, 3]), min_size=size, max_size=size))
+        if draw(st.booleans()) and size >= 2:
+            j = draw(st.integers(0, size - 1))
+            vals[j] = 0
+            vals[j] = -sum(vals)
+        if vtype == "float":
+            vals = [0.5 * v for v in vals]
     depth = draw(st.integers(min_depth, max_depth))
     chain = []
     sh = shape
@@ -914,13 +989,15 @@ def enc_case(draw, min_depth=0, max_depth=3):
         op = ops[draw(st.integers(0, len(ops) - 1))]
         chain.append(op)
         sh = _shape_after(sh, op)
-    api = draw(st.sampled_from([a for a in APIS if isbool or a != "brld"]))
-    return {"shape": list(shape), "vals": vals, "bool": isbool, "kind": kind, "edt": draw(st.sampled_from(DTYPES)), "how": draw(st.sampled_from(["from_dense", "ref"])),
+    api = draw(st.sampled_from([a for a in APIS if isbool or (a != "brld" and not (a == "rld" and vtype == "float"))]))
+    extra = {"vdt": "float"} if vtype == "float" else {}
+    return {**extra, "shape": list(shape), "vals": vals, "bool": isbool, "kind": kind, "edt": draw(st.sampled_from(DTYPES)), "how": draw(st.sampled_from(["from_dense", "ref"])),
             "odt": draw(st.sampled_from(DTYPES)), "api": api, "aux": draw(st.integers(0, 200)), "chain": chain}
 
 
 def s_enc_base(ctx):
     ctx.enumerate("C13.enc", _enc_base_cases(), label="encodings_all_bool_arrays_shapes<=(2,3,2)_x_4_classes_x_all_read_apis")
+    ctx.enumerate("C13.enc", _enc_signed_cases(), label="encodings_all_arrays_over{-1,0,1}_of_4_cells_int_and_float_x_dense_sparse_rle_x_all_read_apis")
 
 
 def s_enc_views(ctx):
@@ -936,8 +1013,10 @@ def s_enc_views(ctx):
 def s_enc_long(ctx):
     if ctx.tier == "quick":
         ctx.enumerate("C13.enc", _enc_long_cases(3, [255, 256, 300, 510]), label="long_run_1d_encodings_bool_len<=3_x_k{255,256,300,510}_x_narrow_count_dtypes")
+        ctx.enumerate("C13.enc", _enc_long_signed_cases([127, 128, 300]), label="long_run_1d_signed_cancelling_rle_x_k{127,128,300}")
     else:
         ctx.enumerate("C13.enc", _enc_long_cases(5, KS), label="long_run_1d_encodings_bool_len<=5_x_all_k_x_narrow_count_dtypes")
+        ctx.enumerate("C13.enc", _enc_long_signed_cases([127, 128] + KS), label="long_run_1d_signed_cancelling_rle_x_all_k")
 
 
 def s_enc_hyp(ctx):
@@ -1200,6 +1279,12 @@ REQUIRED_CLASSES["C13"] = [
     "enc:rle:depth3",
     "enc:brle:depth3",
     "enc:run>max",
+    "enc:vals=signed",
+    "enc:vals=float",
+    "enc:cancel:dense",
+    "enc:cancel:sparse",
+    "enc:cancel:rle",
+    "rl:signed_values",
     "enc:view:flip",
     "enc:view:transpose",
     "enc:view:reshape",
